@@ -17,6 +17,9 @@ if TYPE_CHECKING:
 
 log = logging.getLogger(__name__)
 
+# a value lookup follows at most this many further pages of one peer, whatever page count the peer claims
+MAX_PAGES_PER_PEER = 128
+
 
 class FindResponse:
     @property
@@ -335,7 +338,8 @@ class IterativeValueFinder(IterativeFinder):
                   already_known + len(parsed.found_compact_addresses))
         if len(self.discovered_peers[peer]) != already_known + len(parsed.found_compact_addresses):
             log.warning("misbehaving peer %s:%i returned duplicate peers for blob", peer.address, peer.udp_port)
-        elif len(parsed.found_compact_addresses) >= constants.K and self.peer_pages[peer] < parsed.pages:
+        elif len(parsed.found_compact_addresses) >= constants.K and \
+                self.peer_pages[peer] < min(parsed.pages, MAX_PAGES_PER_PEER):
             # the peer returned a full page and indicates it has more
             self.peer_pages[peer] += 1
             if peer in self.contacted:
